@@ -66,7 +66,11 @@ class IntervalSegmenter(_PanelToPanelTransformer):
                 raise ValueError(
                     "The number of intervals must be half the number of time points"
                 )
-            self.intervals_ = np.array_split(self._time_index, self.intervals)
+            # rows of [start, end) like the intervals passed as an array
+            self.intervals_ = [
+                np.array([chunk[0], chunk[-1] + 1])
+                for chunk in np.array_split(self._time_index, self.intervals)
+            ]
 
         else:
             raise ValueError(
